@@ -1,17 +1,17 @@
-\* thorough: 2 callers x 2 calls, request id wrap
+\* quick: 1 caller x 2 calls, every answer kind, early context end, id wrap
 CONSTANTS
-  Callers = {1, 2}
+  Callers = {1}
   MaxCalls = 2
-  IdSeed = 2
+  IdSeed = 3
   IdMax = 4
   UnsolIds = {0}
-  MaxExtra = 0
-  Kinds = {"ok"}
+  MaxExtra = 1
+  Kinds = {"ok", "wrong", "fault"}
   WithRenew = FALSE
   Timed = FALSE
   T = 2
   MaxTime = 0
-  EarlyCancel = FALSE
+  EarlyCancel = TRUE
   NoTimeouts = FALSE
   Mode = "mc"
   SymBreak = FALSE
